@@ -2,7 +2,7 @@
 import json
 from vt import core
 from vt.main import decide
-from translate import usercls_tr
+from translate import usercls_tr, repo_tr
 from props import usercls_common as uc
 
 
@@ -20,7 +20,7 @@ def corpus_cases(pid):
 def run(chk, pid="C14"):
     import time
     t0 = time.time()
-    chk.prove([usercls_tr.translate])
+    chk.prove([usercls_tr.translate] + ([repo_tr.translate] if pid == "C15" else []))
     t1 = time.time()
     n = 1200 if chk.thorough else 70
     cases = corpus_cases(pid)
@@ -45,6 +45,9 @@ def run(chk, pid="C14"):
             disagreements.append({"case": uc.describe(sc), "ops": ops, "impl": {"events": obs.get("events"), "tops": obs.get("tops")},
                                   "model": model, "what": dis})
         bad = uc.oracle_c14(sc, obs, tops_ok, info) if pid == "C14" else uc.oracle_c15(sc, obs)
+        if sc.get("oracle_only") and pid == "C15":
+            # the class of the known finding: a callback-started load sharing the global repository
+            bad = [(w, t + ["shared_repo_reentrant_load"]) if t[0] in ("reachable", "next_load") else (w, t) for w, t in bad]
         for what, tags in bad[:1]:
             failures.append({"case": uc.describe(sc), "what": what, "tags": tags, "impl": {"tops": obs["tops"], "events": obs["events"][:60]},
                              "model": {"ops": ops}})
